@@ -200,11 +200,17 @@ def apply_op(store, tok):
         elif k == "ae":
             G.add_edge(int(f[2]), int(f[3]), p_et(f[4]), **p_attr(f[5]))
         elif k == "aes":
-            G.add_edges_from(p_pairs(f[2]), p_et(f[3]), **p_attr(f[4]))
+            es = p_pairs(f[2])
+            if sum(a + b for a, b in es) % 2 == 0:     # same call with 3-tuples (u, v, {})
+                es = [(a, b, {}) for a, b in es]
+            G.add_edges_from(es, p_et(f[3]), **p_attr(f[4]))
         elif k == "re":
             G.remove_edge(int(f[2]), int(f[3]), p_et(f[4]))
         elif k == "res":
-            G.remove_edges_from(p_pairs(f[2]), p_et(f[3]))
+            es = p_pairs(f[2])
+            if sum(a + b for a, b in es) % 2 == 1:     # 3-tuples (u, v, key): the key is ignored
+                es = [(a, b, 0) for a, b in es]
+            G.remove_edges_from(es, p_et(f[3]))
         elif k == "ce":
             G.clear_edges(p_et(f[2]))
         elif k == "aet":
@@ -463,8 +469,10 @@ def run(ctx):
     ev.rule = ("histories over a store of MixedEdgeGraph/ADMG objects, node universe 0..3, edge types "
                "directed/circle (DiGraph) and bidirected/undirected (Graph) plus one never-existing name; after "
                "every op every read query of every live object is compared with the Lean spec and model. "
-               "exhaustive: `new` + every word of length<=3 (thorough 4) over a 16-letter alphabet, both classes; "
-               "random: length<=40, some with reads only at a random subset of steps. evaluations = histories; "
+               "exhaustive: `new` + every word of length<=3 over a 16-letter alphabet, both classes (thorough adds the "
+               "length-4 words in random order under a wall-clock budget); random: length<=40, a quarter with reads "
+               "only at a random subset of steps; a guaranteed minimum always runs, the rest under the budget "
+               "(counts of what ran are in input_histogram / histories_not_run_soft_budget). evaluations = histories; "
                "non-trivial = the history contains at least one of: a layer added after the object was queried, "
                "remove-then-re-add on one object, a copy/subgraph mutated afterwards, an original mutated after "
                "being copied (counted per distinct history)")
@@ -483,23 +491,43 @@ def run(ctx):
             case["watch"] = sorted(rng.sample(range(len(ops)), max(1, len(ops) // 4)) + [len(ops) - 1])
             case["src"] = "rnd-sparse"
         rnd.append(case)
-    cases = [dict(c, src="corpus") for c in C.load_corpus(PID)]
-    cases += rnd[:nmin]
-    cases += list(exhaustive(3 if tier == "quick" else 4))
-    cases += rnd[nmin:]
+    fixed = [dict(c, src="corpus") for c in C.load_corpus(PID)]
+    fixed += rnd[:nmin]
+    fixed += list(exhaustive(3))
+    # budgeted part: (thorough) the depth-4 words in a seeded random order, interleaved with the rest of
+    # the random stream; cut at a soft wall-clock budget so that the tier's time bound holds on a loaded
+    # machine - what was actually run is counted in the evidence
+    extra = []
+    if tier == "thorough":
+        extra = [c for c in exhaustive(4) if len(c["ops"]) == 5]
+        for c in extra:
+            c["src"] = "exh4"
+        rng.shuffle(extra)
+    rest = rnd[nmin:]
+    budget = []
+    i = j = 0
+    while i < len(extra) or j < len(rest):
+        budget += extra[i:i + 2000] + rest[j:j + 500]
+        i += 2000
+        j += 500
+    cases = fixed + budget
+    n_fixed = len(fixed)
+    # cross-check of the driver's tabulated specification run against `AStore.run` literally
+    xs = rnd[:150 if tier == "quick" else 1500]
+    a1 = C.lean_batch([line("c02s", c["ops"]) for c in xs], jobs=8)
+    a2 = C.lean_batch([line("c02sraw", c["ops"]) for c in xs], jobs=8)
+    if a1 != a2:
+        raise RuntimeError("driver: tabulated spec run differs from AStore.run")
+    ev.extra["spec_tabulation_crosschecked_histories"] = len(xs)
     bad_spec, bad_model = [], []
     steps = 0
     CH = 2000
-    # corpus + exhaustive part always run completely; the random stream is cut at a soft wall-clock
-    # budget so that the tier's time bound holds on a loaded machine (the number actually run is
-    # reported in the evidence)
-    n_fixed = len(cases) - (nrand - nmin)
-    soft = time.time() + float(os.environ.get("VERIF_C02_SOFT_S", "0") or (40 if tier == "quick" else 420))
-    ev.extra["random_histories_generated"] = nrand
-    bounds = list(range(0, n_fixed, CH)) + list(range(n_fixed, len(cases), 500)) + [len(cases)]
+    soft = time.time() + float(os.environ.get("VERIF_C02_SOFT_S") or (35 if tier == "quick" else 400))
+    ev.extra["histories_generated"] = len(cases)
+    bounds = list(range(0, n_fixed, CH)) + list(range(n_fixed, len(cases), 2500)) + [len(cases)]
     for lo, hi in zip(bounds, bounds[1:]):
         if time.time() > ctx["deadline"] or (lo >= n_fixed and time.time() > soft):
-            ev.extra["random_histories_not_run_soft_budget"] = len(cases) - lo
+            ev.extra["histories_not_run_soft_budget"] = len(cases) - lo
             break
         chunk = cases[lo:min(hi, n_fixed) if lo < n_fixed else hi]
         ans = C.lean_batch([line("c02s", c["ops"]) for c in chunk] + [line("c02m", c["ops"]) for c in chunk],
